@@ -2,6 +2,7 @@ SPECIFICATION Spec
 CONSTANTS
   Holders = {h1, h2}
   Names = {1, 2, 3}
+  GlobalAcq = FALSE
   Sorted = TRUE
 INVARIANTS Exclusion Independent
 PROPERTY EveryoneGetsIn
